@@ -124,11 +124,32 @@ def entry_lit(e):
     return f"{{| ename := {e['name']}; einterval := {e['interval']}; eweight := {e['weight']}; emin := {e['min']}%nat |}}"
 
 
+def designated_readds():
+    """Designated add_move sequences (seeded change C09-11: the committed total cached under the table SIZE): a name is registered,
+    re-registered with another minimum count - the table keeps its size, the committed total does not - and the very next call asks
+    for forced slots.  Both directions: the total grew (the next call must be refused) and the total shrank (it must be accepted)."""
+    out = []
+    for c in (1, 2, 3, 5, 8):
+        for pre in (0, 2):
+            others = [{"name": 50 + i, "interval": i + 2, "weight": 1, "min": 0} for i in range(pre)]
+            base = [{"name": 99, "interval": 1, "weight": 1, "min": 0}] + others
+            grew = base + [{"name": 0, "interval": 1, "weight": 1, "min": 0}, {"name": 0, "interval": 1, "weight": 1, "min": c},
+                           {"name": 0, "interval": 1, "weight": 1, "min": 1}, {"name": 1, "interval": 1, "weight": 1, "min": 1},
+                           {"name": 2, "interval": 2, "weight": 3, "min": 0}]
+            shrank = base + [{"name": 0, "interval": 1, "weight": 1, "min": c}, {"name": 0, "interval": 1, "weight": 1, "min": 0},
+                             {"name": 0, "interval": 1, "weight": 1, "min": 0}, {"name": 0, "interval": 1, "weight": 1, "min": 1},
+                             {"name": 99, "interval": 1, "weight": 2, "min": c - 1}, {"name": 1, "interval": 1, "weight": 1, "min": 1}]
+            for adds in (grew, shrank):
+                out.append({"cycles": c, "adds": adds, "steps": 6, "seed": 1000 + 10 * c + pre, "wscale": 64})
+    return out
+
+
 def run(res: C.Result):
     rng = random.Random(res.seed)
     C.prove(res)
     ncases = 120 if res.tier == "quick" else 2500
-    cases = [gen_case(rng) for _ in range(ncases)]
+    cases = designated_readds() + [gen_case(rng) for _ in range(ncases)]
+    ncases = len(cases)
     outs = C.run_impl_parallel("c09.py", [{"cases": cases[i::16]} for i in range(16)])
     results = [None] * ncases
     for j, o in enumerate(outs):
